@@ -21,11 +21,11 @@ ASSUMPTIONS = ["float-valued distances and edges are multiples of 0.25 (exactly 
                "values outside [first edge, last edge] are dropped by the NumPy histogram convention and are not part of the total"]
 EXHAUSTIVE = {"quick": ["all multisets of size 2..4 over {'', A, B, AB} with bins range(4), counts"],
               "thorough": ["all multisets of size 2..5 over {'', A, B, AB, BA}", "all pairs (xs, ys) of multisets of size 1..3 over {A, B, AB}"]}
-REQUIRE = {"hist_cases": 80, "two_collection_cases": 13, "recording_metric_calls": 33, "pseudocount_cases": 15,
+REQUIRE = {"hist_cases": 80, "two_collection_cases": 13, "recording_metric_calls": 23, "pseudocount_cases": 15,
            "unnormalized_cases": 20, "values_beyond_last_edge_cases": 8, "float_metric_cases": 8, "bins0_cases": 12,
            "table_cases": 18, "table_alpha_only": 3, "table_beta_only": 3, "table_both": 5, "legacy_tuple_cases": 3,
            "maxseqs_cases": 12, "maxseqs_subsampled": 9, "maxseqs_table_cases": 3, "background_checked": 1,
-           "d0_count_checked": 20, "distances_ge_256_cases": 3}
+           "d0_count_checked": 20, "distances_ge_256_cases": 3, "explicit_metric_object_cases": 5, "table_beta_column_first": 3}
 SHARDS = {"quick": 4, "thorough": 16}
 
 
@@ -34,8 +34,10 @@ def self_test():
 
 
 def _metric_fn(name):
-    if name == "lev":
+    if name in ("lev", "obj:Levenshtein"):
         return O.lev
+    if name == "obj:WeightedLevenshtein253":
+        return lambda a, b: O.wlev(a, b, 2, 5, 3)
     if name == "float":
         return lambda a, b: 0.25 * D.compl1(a, b)
     if name == "lendiff":
@@ -133,7 +135,12 @@ def k_hist(ctx, seqs, bins, normalize, pseudocount, metric=None, seqs2=None, con
     kw = {"normalize": normalize, "pseudocount": pseudocount}
     if bins is not None:
         kw["bins"] = np.array(bins) if len(bins) % 2 else list(bins)
-    if metric:
+    if metric and metric.startswith("obj:"):
+        # the package's own Metric objects, passed explicitly
+        from pyrepseq.metric import Levenshtein, WeightedLevenshtein
+        kw["metric"] = Levenshtein() if metric == "obj:Levenshtein" else WeightedLevenshtein(2, 5, 3)
+        ctx.count("explicit_metric_object_cases")
+    elif metric:
         kw["metric"] = make_recorder(metric, log)
     a = _container(container, seqs)
     b = _container(container, seqs2) if seqs2 is not None else None
@@ -146,7 +153,7 @@ def k_hist(ctx, seqs, bins, normalize, pseudocount, metric=None, seqs2=None, con
     if not _same(out.value, exp):
         ctx.violation(f"pcDelta:{mode}:{norm}:wrong-histogram", "pcDelta differs from the exact pair histogram", out.value, exp,
                       {"n_pairs": len(dists)})
-    if metric:
+    if metric and not metric.startswith("obj:"):
         ctx.count("recording_metric_calls", len(log))
         want = "pdist" if seqs2 is None else "cdist"
         if len(log) != 1 or log[0][0] != want:
@@ -197,7 +204,7 @@ def k_bins0(ctx, seqs, seqs2=None, as_table=False):
         ctx.violation(f"pcDelta:bins0:{mode}:wrong-value", "pcDelta(bins=0) is not pc of the same arguments", out.value, str(exp))
 
 
-def k_table(ctx, rows, cols, bins, normalize, rows2=None, legacy=False, extra=False, index=None):
+def k_table(ctx, rows, cols, bins, normalize, rows2=None, legacy=False, extra=False, index=None, beta_first=False):
     """rows: list of [cdr3a, cdr3b]; cols in {'AB','A','B'}: which CDR3 columns the table has."""
     import numpy as np
     import pandas as pd
@@ -213,6 +220,8 @@ def k_table(ctx, rows, cols, bins, normalize, rows2=None, legacy=False, extra=Fa
         if extra:
             df["clone_count"] = range(len(rs))
             df["TRBV"] = "TRBV9*01"
+        if beta_first:
+            df = df[list(reversed(list(df.columns)))]      # CDR3B before CDR3A: column order must not matter
         if index == "shifted":
             df.index = range(7, 7 + len(rs))
         elif index == "string":
@@ -236,8 +245,10 @@ def k_table(ctx, rows, cols, bins, normalize, rows2=None, legacy=False, extra=Fa
     ctx.count({"AB": "table_both", "A": "table_alpha_only", "B": "table_beta_only"}[cols])
     if legacy:
         ctx.count("legacy_tuple_cases")
+    if beta_first and cols == "AB":
+        ctx.count("table_beta_column_first")
     if len(set(dists)) >= 2:
-        ctx.nontriv(["T", rows, rows2, cols, bins, normalize, legacy])
+        ctx.nontriv(["T", rows, rows2, cols, bins, normalize, legacy, beta_first])
     ctx.sample(f"table:{cols}" + (":legacy" if legacy else ""), {"rows": rows[:5], "cols": cols, "bins": bins, "expected": exp[:8]})
     if legacy:
         a = ([r[0] for r in rows], [r[1] for r in rows])
@@ -330,7 +341,12 @@ def k_maxseqs(ctx, seqs, maxseqs, seqs2=None, table=False, np_seed=0):
 def k_background(ctx):
     import numpy as np
     import pyrepseq as prs
-    out = ctx.call(prs.load_pcDelta_background)
+    first = ctx.call(prs.load_pcDelta_background)
+    ctx.call(prs.load_pcDelta_background, return_bins=False)
+    out = ctx.call(prs.load_pcDelta_background)          # repeated calls must keep returning the same edges
+    if first.ok and out.ok and np.asarray(first.value[1]).tolist() != np.asarray(out.value[1]).tolist():
+        ctx.violation("load_pcDelta_background:repeated-call", "a later call returns different bin edges than the first",
+                      np.asarray(out.value[1]).tolist(), np.asarray(first.value[1]).tolist())
     ctx.count("background_checked")
     ctx.nontriv("background")
     ctx.nontriv("background2")
@@ -387,7 +403,7 @@ def generate(tier, seed):
         seqs = G.small_multiset(rng, pool, 2, 60 if i % 10 == 0 else 14)
         p = {"seqs": seqs, "bins": BINS[i % len(BINS)], "normalize": i % 3 != 0,
              "pseudocount": [0.0, 0.0, 0.5, 1, 3.25][i % 5] if i % 3 != 0 else 0.0,
-             "metric": [None, "lev", "float", "lendiff"][(i // 2) % 4],
+             "metric": [None, "lev", "float", "lendiff", "obj:Levenshtein", "obj:WeightedLevenshtein253"][(i // 2) % 6],
              "container": [None, None, "ndarray_U", "series_shifted", "tuple"][i % 5]}
         if p["container"] == "tuple" and len(seqs) == 2:
             p["container"] = None
@@ -423,7 +439,7 @@ def generate(tier, seed):
             rows[1] = list(rows[0])
         cols = ["AB", "A", "B"][i % 3]
         p = {"rows": rows, "cols": cols, "bins": [None, [0, 1, 2, 3, 4, 5, 6], [0, 2, 9]][i % 3], "normalize": i % 2 == 0,
-             "extra": i % 4 == 1, "index": [None, "shifted", "string"][i % 3]}
+             "extra": i % 4 == 1, "index": [None, "shifted", "string"][i % 3], "beta_first": i % 2 == 1}
         if i % 5 == 0:
             p["rows2"] = [[rng.choice(cells), rng.choice(cells)] for _ in range(rng.randint(1, 6))]
         if cols == "AB" and i % 6 == 0:
